@@ -616,6 +616,9 @@ fn run(e: &Engine) {
     let p = crate::gen::enumstr::Partitioned { alpha: crate::props::c01::CLASS_ALPHABET, max_len: e.tier.pick(6, 7), prefix_len: 2 };
     let pr = &p;
     e.enumerate::<Case, _, _>("all-strings-over-class-alphabet", p.parts(), move |part, f| pr.run(part, &mut |s| f(Case::Bytes { bytes: B(s.to_vec()) })), check);
+    if e.tier == crate::engine::Tier::Thorough {
+        e.fuzz("fuzz-c04_lex", "c04_lex", 8_000_000, |b| Case::Bytes { bytes: B(b.to_vec()) }, check);
+    }
     // the known-finding class is generated only here
     e.count_excluded("exp-ws (white space around the exponent marker)", 0);
     e.proptest("exp-ws", e.tier.pick(2_000, 50_000), exp_ws_strategy, check);
